@@ -29,7 +29,10 @@ type c11Ref struct {
 	// WithNil: the pair is written wv=nl - its value is nil. The pair still counts: the included
 	// template sees an empty wv, not the includer's
 	WithNil bool `json:"with_nil_value,omitempty"`
-	Dead    bool `json:"never_executed,omitempty"` // lazy include under a false condition
+	// InnerSv: the include sits in a `with` block that binds sv again - the innermost binding
+	// is the includer's variable at that point
+	InnerSv string `json:"inner_sv,omitempty"`
+	Dead    bool   `json:"never_executed,omitempty"` // lazy include under a false condition
 	// Var / GlobalName (lazy includes of the top-level file only): the name is the value of the
 	// context variable Var; the set's Globals bind the same variable to GlobalName, another
 	// name - the caller's context wins, and what counts is the value at run time
@@ -425,6 +428,9 @@ func c11Finish(tp *Tapes, sp *c11Spec) {
 					ref.With = fmt.Sprintf("W%d_%d", i, r)
 					ref.Only = true
 				}
+				if ref.Type == "inc" && ref.WithSv == "" && g.Draw(5) == 0 {
+					ref.InnerSv = fmt.Sprintf("IN%d_%d", i, r)
+				}
 				if ref.With == "" && g.Draw(4) == 0 {
 					ref.WithNil = true
 					ref.Only = g.Draw(3) == 0
@@ -499,6 +505,9 @@ func c11RefText(ref c11Ref, k int) string {
 	}
 	switch ref.Type {
 	case "inc":
+		if ref.InnerSv != "" {
+			return fmt.Sprintf(`{%% with sv="%s" %%}{%% include "%s"%s %%}{%% endwith %%}`, ref.InnerSv, ref.Name, tail)
+		}
 		return fmt.Sprintf(`{%% include "%s"%s %%}`, ref.Name, tail)
 	case "lazy":
 		s := fmt.Sprintf(`{%% include nl|default:"%s"%s %%}`, ref.Name, tail)
@@ -739,6 +748,9 @@ func (r *c11Ref2) execRefs(n *c11Node, f c11File, execName string, env c11Env, b
 		}
 		if ref.With2 != "" {
 			sub.wv2 = ref.With2
+		}
+		if ref.InnerSv != "" && !ref.Only {
+			sub.sv = ref.InnerSv
 		}
 		if ref.WithSv != "" {
 			sub.sv = ref.WithSv
